@@ -256,6 +256,124 @@ Theorem C15_bin_exact_when_linear_across_the_bin :
 Proof. exact raw_bins_trapz_interval. Qed.
 Print Assumptions C15_bin_exact_when_linear_across_the_bin.
 
+(* ---- refusal paths and exactness ("deepen"): exactly which inputs are refused, with which exception, and what an
+   accepted call produces ---- *)
+(* the wave setter accepts exactly the positive strictly increasing grids; it never raises anything but ValueError *)
+Theorem C15_wave_setter_exact :
+  forall (w : list Qc),
+  (wave_check w = Ok w <-> increasing w /\ Forall (fun x => 0 < x) w) /\
+  (wave_check w = Ok w \/ wave_check w = Err ValueError).
+Proof. exact wave_check_exact. Qed.
+Print Assumptions C15_wave_setter_exact.
+
+(* Spectrum(wave, value) succeeds exactly on well-formed tables and then holds them unchanged; else ValueError *)
+Theorem C15_constructor_exact :
+  forall (w v : list Qc),
+  (forall s, make w v = Ok s <-> s = mkSp w v /\ wf (mkSp w v)) /\
+  (make w v = Ok (mkSp w v) \/ make w v = Err ValueError).
+Proof. exact make_exact. Qed.
+Print Assumptions C15_constructor_exact.
+
+(* integrate: the trapezoid rule never refuses explicit bounds; Simpson refuses exactly an empty selection; a missing
+   bound is refused on an empty spectrum; every refusal is a ValueError *)
+Theorem C15_integrate_refusals :
+  forall (s : spectrum),
+  (forall lo hi, exists x, integrate s (Some lo) (Some hi) Trapz = Ok x) /\
+  (forall lo hi, (integrate s (Some lo) (Some hi) Simps = Err ValueError <-> select lo hi (samples s) = []) /\
+                 (select lo hi (samples s) <> [] -> exists x, integrate s (Some lo) (Some hi) Simps = Ok x)) /\
+  (wave s = [] -> forall a b r, (a = None \/ b = None) -> integrate s a b r = Err ValueError) /\
+  (forall a b r e, integrate s a b r = Err e -> e = ValueError).
+Proof. exact integrate_refusals. Qed.
+Print Assumptions C15_integrate_refusals.
+
+(* ends (hence trim): ValueError exactly without a positive value; IndexError exactly when the maximum is positive
+   but no value relative to it exceeds the tolerance; nothing else is raised *)
+Theorem C15_ends_refusals :
+  forall (s : spectrum) (tol : Qc),
+  (ends s tol = Err ValueError <-> value s = [] \/ exists m, qmaxl (value s) = Ok m /\ m <= 0) /\
+  (ends s tol = Err IndexError <-> exists m, qmaxl (value s) = Ok m /\ 0 < m /\ forall v, In v (value s) -> ~ tol < v / m) /\
+  (forall e, ends s tol = Err e -> e = ValueError \/ e = IndexError).
+Proof. exact ends_refusals. Qed.
+Print Assumptions C15_ends_refusals.
+
+(* sample: refused exactly for an empty table or unequal lengths (ValueError), otherwise the interpolant at every
+   requested point; the interpolant returns the stored value at a sample, the chord between two neighbouring
+   samples, and 0 outside the table *)
+Theorem C15_sample_exact :
+  forall (s : spectrum) (xs : list Qc),
+  (sample s xs = Err ValueError <-> wave s = [] \/ length (wave s) <> length (value s)) /\
+  (wave s <> [] -> length (wave s) = length (value s) -> sample s xs = Ok (map (interp (wave s) (value s)) xs)) /\
+  (forall e, sample s xs = Err e -> e = ValueError).
+Proof. exact sample_exact. Qed.
+Print Assumptions C15_sample_exact.
+
+Theorem C15_interpolant :
+  (forall w v x y, increasing w -> length w = length v -> In (x, y) (combine w v) -> interp w v x = y) /\
+  (forall A x0 y0 x1 y1 B x, increasing (map fst (A ++ (x0, y0) :: (x1, y1) :: B)) -> x0 <= x -> x <= x1 ->
+     interp (map fst (A ++ (x0, y0) :: (x1, y1) :: B)) (map snd (A ++ (x0, y0) :: (x1, y1) :: B)) x
+     = y0 + ((y1 - y0) / (x1 - x0)) * (x - x0)) /\
+  (forall w v x, increasing w -> length w = length v -> (w = [] \/ x < hd 0 w \/ last w 0 < x) -> interp w v x = 0).
+Proof. exact (conj interp_node (conj interp_interval interp_outside)). Qed.
+Print Assumptions C15_interpolant.
+
+(* bin: refused (ValueError, nothing else) exactly for fewer than two centres, an empty or ragged table, or - Simpson
+   with power preservation - when no sample lies inside the span of the centres *)
+Theorem C15_bin_refusals :
+  forall (s : spectrum) (c : list Qc) (r : rule) (e : endsmode) (pp : bool),
+  (bin s c r e pp = Err ValueError <->
+     (length c < 2)%nat \/ wave s = [] \/ length (wave s) <> length (value s) \/
+     (pp = true /\ r = Simps /\ exists lo hi, qminl c = Ok lo /\ qmaxl c = Ok hi /\ select lo hi (samples s) = [])) /\
+  (forall err, bin s c r e pp = Err err -> err = ValueError).
+Proof. exact bin_refusals. Qed.
+Print Assumptions C15_bin_refusals.
+
+(* append: accepted exactly when the two grids broadcast (equal lengths, or one of them has a single sample) and the
+   appended grid starts above the caller's last wavelength; every refusal is a ValueError and leaves the caller as it was *)
+Theorem C15_append_accepts_exactly :
+  forall (s o : spectrum), wf s -> wf o ->
+  (snd (append s o) = None <->
+     (length (wave o) = length (wave s) \/ length (wave o) = 1%nat \/ length (wave s) = 1%nat) /\
+     (wave s = [] \/ wave o = [] \/ last (wave s) 0 < hd 0 (wave o))) /\
+  (forall e, snd (append s o) = Some e -> e = ValueError /\ fst (append s o) = s).
+Proof. exact append_accepts_exactly. Qed.
+Print Assumptions C15_append_accepts_exactly.
+
+(* pad, exactly: ceil((first - e0)/sampling) samples are added on the left and ceil((e1 - last)/sampling) on the right
+   (sampling = the smallest spacing for 'min'); the added samples start at e0 / stop at e1, lie strictly outside the old
+   grid, carry the requested constants (or the edge values), the old samples sit unchanged in between, and the
+   result is well-formed *)
+Theorem C15_pad_exact :
+  forall (s : spectrum) (e0 e1 : Qc) (sm : option Qc) (md : padmode) (s' : spectrum),
+  wf s -> pad s e0 e1 sm md = (s', None) ->
+  exists v0 v1 dw w0 L R,
+    (match md with PadConst a b => v0 = a /\ v1 = b | PadEdge => v0 = hd 0 (value s) /\ v1 = last (value s) 0 end) /\
+    (match sm with Some d => dw = d | None => min_diff (wave s) = Ok dw end) /\
+    hd_error (wave s) = Some w0 /\
+    let nl := (Qceiling ((w0 - e0) / dw) + 1)%Z in
+    let nr := (Qceiling ((e1 - last (wave s) 0%Qc) / dw) + 1)%Z in
+    (1 <= nl)%Z /\ (1 <= nr)%Z /\
+    wave s' = L ++ wave s ++ R /\ value s' = repeat v0 (length L) ++ value s ++ repeat v1 (length R) /\
+    Z.of_nat (length L) = (nl - 1)%Z /\ Z.of_nat (length R) = (nr - 1)%Z /\
+    (L <> [] -> hd 0 L = e0) /\ (R <> [] -> last R 0 = e1) /\
+    (forall x, In x L -> x < w0) /\ (forall x, In x R -> last (wave s) 0 < x) /\ wf s'.
+Proof. exact pad_exact. Qed.
+Print Assumptions C15_pad_exact.
+
+(* append(other, copy=True) and asarray() inside a session: the caller is not touched; the returned copy is exactly what
+   the in-place append would have left (well-formed, old samples followed by the new ones), a refusal is the same
+   refusal; asarray returns the current (wave, value) *)
+Theorem C15_copy_calls :
+  forall (s : spectrum), wf s ->
+  (forall o, length (wave o) = length (value o) ->
+     fst (fst (do_call s (CAppendCopy o))) = s /\
+     match append s o with
+     | (s', None) => do_call s (CAppendCopy o) = ((s, None), ASpec s') /\ wf s' /\ samples s' = samples s ++ samples o
+     | (_, Some e) => do_call s (CAppendCopy o) = ((s, Some e), ANone)
+     end) /\
+  do_call s CAsArray = ((s, None), ASpec s).
+Proof. exact copy_calls. Qed.
+Print Assumptions C15_copy_calls.
+
 (* non-vacuity: a concrete spectrum with a non-uniform grid; a call sequence mixing accepted calls, a refused
    pad and a resample refused for its grid meets the hypotheses of the invariant and ends in the expected state; a concrete integral and bins *)
 Definition spx : spectrum := mkSp [q 1 1; q 3 2; q 5 2; q 9 2; q 5 1] [q 0 1; q 2 1; q 4 1; q 1 1; q 0 1].
@@ -271,3 +389,29 @@ Example C15_nonvacuous :
   pl_integral (samples spx) (q 3 2) (q 9 2) = q 8 1 /\
   bin spx [q 3 2; q 5 2; q 9 2] Trapz Inside true = Ok (Some [q 80 57; q 88 19; q 112 57]).
 Proof. exact nonvacuous_example. Qed.
+
+(* non-vacuity of the refusal / exactness statements: concrete refused and accepted instances of every kind *)
+Example C15_refusals_nonvacuous :
+  let sp := mkSp [q 1 1; q 2 1; q 4 1; q 8 1] [q 1 1; q 3 1; q 7 1; q 2 1] in
+  let e := mkSp [] [] in
+  wave_check [q 2 1; q 1 1] = Err ValueError /\ wave_check [q 1 1; q 1 1] = Err ValueError /\
+  wave_check [q 0 1; q 1 1] = Err ValueError /\ (exists w, wave_check [q 1 1; q 2 1; q 4 1] = Ok w) /\
+  make [q 1 1; q 2 1] [q 5 1] = Err ValueError /\ (exists s, make [q 1 1; q 2 1] [q 5 1; q 6 1] = Ok s) /\
+  integrate sp (Some (q 5 2)) (Some (q 3 1)) Simps = Err ValueError /\ select (q 5 2) (q 3 1) (samples sp) = [] /\
+  (exists x, integrate sp (Some (q 5 2)) (Some (q 3 1)) Trapz = Ok x) /\
+  integrate e None (Some (q 3 1)) Trapz = Err ValueError /\
+  ends (mkSp [q 1 1; q 2 1; q 3 1] [q (-1) 1; q 0 1; q (-2) 1]) (q 0 1) = Err ValueError /\
+  ends (mkSp [q 1 1; q 2 1; q 3 1] [q 1 1; q 0 1; q 2 1]) (q 1 1) = Err IndexError /\
+  ends (mkSp [q 1 1; q 2 1; q 3 1] [q 1 1; q 0 1; q 2 1]) (q 1 4) = Ok (0%nat, 2%nat) /\
+  sample e [q 1 1] = Err ValueError /\ (exists f, sample sp [q 3 1; q 9 1] = Ok f) /\
+  bin sp [q 2 1] Trapz Inside false = Err ValueError /\
+  bin sp [q 5 1; q 6 1; q 7 1] Simps Inside true = Err ValueError /\
+  (exists b, bin sp [q 5 1; q 6 1; q 7 1] Simps Inside false = Ok b) /\
+  snd (append (mkSp [q 1 1; q 2 1; q 13 2] [q 1 1; q 1 1; q 1 1]) (mkSp [q 5 1; q 6 1; q 7 1] [q 2 1; q 2 1; q 2 1]))
+    = Some ValueError /\
+  snd (append (mkSp [q 1 1; q 2 1; q 3 1] [q 1 1; q 1 1; q 1 1]) (mkSp [q 4 1; q 5 1] [q 2 1; q 2 1])) = Some ValueError /\
+  snd (append (mkSp [q 1 1; q 2 1; q 3 1] [q 1 1; q 1 1; q 1 1]) (mkSp [q 4 1; q 5 1; q 6 1] [q 2 1; q 2 1; q 2 1])) = None /\
+  (exists s', pad (mkSp [q 3 2; q 5 2; q 9 2] [q 2 1; q 4 1; q 1 1]) (q 1 2) (q 11 2) None PadEdge = (s', None) /\
+              length (wave s') = 5%nat) /\
+  pad_other_refusal (mkSp [q 2 1; q 3 1; q 4 1] [q 1 1; q 1 1; q 1 1]) (q 4 1) (q 3 1) None (PadConst 0 0) = Some IndexError.
+Proof. exact deepen_examples. Qed.
